@@ -174,6 +174,30 @@ pub fn directed(profile: &str) -> Vec<(String, Vec<(String, Value)>)> {
                     out.push((src.to_string(), vars.clone()));
                 }
             }
+            // substring search, exhaustively over a small scope: every pair of strings over {a, b} up to length 3 (plus
+            // a few non-ASCII ones) under contains / startsWith / endsWith, and the same texts as bytes under contains
+            let mut words: Vec<String> = vec![String::new()];
+            let mut frontier = vec![String::new()];
+            for _ in 0..3 {
+                let mut next = vec![];
+                for w in &frontier {
+                    for c in ["a", "b"] {
+                        next.push(format!("{}{}", w, c));
+                    }
+                }
+                words.extend(next.iter().cloned());
+                frontier = next;
+            }
+            words.extend(["é", "aé", "éa", "éé"].iter().map(|x| x.to_string()));
+            for a in &words {
+                for b in &words {
+                    let vars = vec![("a".to_string(), s(a)), ("b".to_string(), s(b)),
+                                    ("ya".to_string(), Value::Bytes(Arc::new(a.as_bytes().to_vec()))), ("yb".to_string(), Value::Bytes(Arc::new(b.as_bytes().to_vec())))];
+                    for src in ["a.contains(b)", "a.startsWith(b)", "a.endsWith(b)", "ya.contains(yb)"] {
+                        out.push((src.to_string(), vars.clone()));
+                    }
+                }
+            }
             // map literals: key_1, value_1, key_2, value_2 ... in order, the first error aborts
             for src in ["{1: 1 / 0, 9223372036854775807 + 1: 2}", "{t(1, 1): t(2, 2), t(3, 3): t(4, 4)}", "{1: nope, 5 % 0: 2}", "{1 / 0: nope}", "{t(1, 'a'): 1 / 0, fail(2): 3}",
                         "{[1]: 1 / 0}", "{1: 2, [1]: 1 / 0}", "{1: t(1, 2), 1.5: nope}", "[t(1, 1), 1 / 0, nope]", "[nope, 1 / 0]", "{1: 2, 1: 1 / 0}"] {
@@ -321,6 +345,7 @@ pub fn c02_table(seed: u64, thorough: bool, out: &mut dyn Write) -> Stats {
         s(""), s("a"), s("héllo"), s("日本"), s("🐱x"), s("1h30m"), s("1e13h"), s("9223372036854775807s"), s("infs"), s("nan"), s("-9223372036854775808"),
         s("2024-02-29T23:59:59.5+02:00"), s("99999999999999999h"), s("^(a+)+$"), s("("), s("18446744073709551616"), s("1.5"), s("-0"), s("0x10"),
         Value::Bytes(Arc::new(vec![])), Value::Bytes(Arc::new(vec![0xff, 0xfe])), Value::Bytes(Arc::new("é".as_bytes().to_vec())),
+        Value::Bytes(Arc::new(b"abc".to_vec())), Value::Bytes(Arc::new(b"ca".to_vec())), Value::Bytes(Arc::new(b"bb".to_vec())), Value::Bytes(Arc::new(b"ab".to_vec())), Value::Bytes(Arc::new(vec![0xfe, 0xff])),
         Value::Bool(true), Value::Bool(false), Value::Null,
         Value::List(Arc::new(vec![])), Value::List(Arc::new(vec![Value::Int(1), Value::Int(2), Value::Int(3)])), Value::List(Arc::new(vec![s("é"), Value::Null])),
         Value::Function(Arc::new("size".into()), None),
